@@ -4,6 +4,7 @@ import (
 	"encoding/json"
 	"fmt"
 	"math/rand"
+	"os"
 	"strings"
 	"time"
 
@@ -180,6 +181,9 @@ func validateTraceIn(r *evid.Run, module, cfg, file string, recs []any) (map[int
 		sb.Write(b)
 		sb.WriteByte('\n')
 	}
+	if keep := os.Getenv("VERIF_KEEP_TRACE"); keep != "" { // debugging aid: a copy of the trace handed to TLC
+		os.WriteFile(keep, []byte(sb.String()), 0o644)
+	}
 	res, err := tlcrun.Run(tlcrun.Opts{SpecDir: specDir, Module: module, Cfg: cfg, Workers: 1, Timeout: 15 * time.Minute,
 		Extra: map[string]string{file: sb.String()}}, nil)
 	if err != nil {
@@ -222,7 +226,11 @@ func validateTraceIn(r *evid.Run, module, cfg, file string, recs []any) (map[int
 	for _, e := range v[2].(tla.Set) {
 		p := tla.Q(e)
 		i := tla.I(p[0]) - 1
-		bad[i] += tla.S(p[1])
+		if len(p) >= 3 { // <<index, layer, detail>>
+			bad[i] += tla.S(p[1]) + ":" + tla.S(p[2]) + ";"
+		} else {
+			bad[i] += tla.S(p[1])
+		}
 	}
 	r.Count("trace_tlc_states", res.Distinct)
 	return bad, true
